@@ -44,7 +44,10 @@ func isIntText(s string) bool {
 // String prints the node as an argument of a helper call (a call node printed
 // this way is also a complete template). Literal text never contains { } " \
 // so no escaping is needed; text arguments are always quoted, a concatenation
-// is one quoted argument holding only text, {n} and {name}.
+// is one quoted argument holding only text, {n} and {name}. A concatenation
+// that holds helper calls is written without quotes (`{@len {0}}:{0}:{k}` is
+// one argument: the tokenizer only splits at spaces outside braces); its text
+// parts then must not contain spaces.
 func (n *Node) String() string {
 	switch n.K {
 	case "lit":
@@ -58,6 +61,28 @@ func (n *Node) String() string {
 		return "{" + n.S + "}"
 	case "cat":
 		var sb strings.Builder
+		hasCall := false
+		for _, p := range n.A {
+			if p.K == "call" {
+				hasCall = true
+			}
+		}
+		if hasCall {
+			for _, p := range n.A {
+				switch p.K {
+				case "lit":
+					if strings.ContainsAny(p.S, " \t\n\"") || p.S == "" {
+						panic("text inside an unquoted concatenation must not be empty or hold spaces or quotes")
+					}
+					sb.WriteString(p.S)
+				case "grp", "key", "call":
+					sb.WriteString(p.String())
+				default:
+					panic("cat holds only text, groups, keys and calls")
+				}
+			}
+			return sb.String()
+		}
 		sb.WriteByte('"')
 		for _, p := range n.A {
 			switch p.K {
